@@ -104,6 +104,14 @@ def run(ctx):
             if main:
                 for di, prog in enumerate(directed(lf)):
                     jobs.append((f'c02d:{di}:{cfg}:{lf}', cfg, lf, ctx.seed, {'prog': prog, 'forced': False}))
+    # small security parameters (an option of every configuration): k only affects privacy, never the result;
+    # the probabilistic equality test is the one documented exception and is left out of these jobs
+    ops_k = [o for o in OPS if o not in ('cmp', 'ifelse', 'ifswap')]
+    for cfg in L.CFGS_SMALLK:
+        for lf in L.TYPES:
+            for i in range(ctx.scale(3, 40)):
+                jobs.append((f'c02k:{cfg}:{lf}:{i}', cfg, lf, ctx.seed,
+                             {'depth': ctx.scale(4, 6), 'len': 9, 'ops': ops_k, 'div': True, 'forced': False}))
     for lf, prog in KNOWN_DIRECTED:
         jobs.append((f'known:{lf}', (1, 0, False), lf, ctx.seed, {'prog': prog, 'forced': False}))
         jobs.append((f'known3:{lf}', (3, 1, False), lf, ctx.seed, {'prog': prog, 'forced': False}))
@@ -131,7 +139,7 @@ def handle(ctx, r, lf, retry=True):
             ctx.count('op:' + op)
             if 'calls' in rec:
                 ctx.count('trunc-calls-recovered', len(rec['calls']))
-    ctx.count(f'cfg:m={r["cfg"][0]},t={r["cfg"][1]},{"noprss" if r["cfg"][2] else "prss"}')
+    ctx.count(f'cfg:m={r["cfg"][0]},t={r["cfg"][1]},{"noprss" if r["cfg"][2] else "prss"}' + (f',k={r["cfg"][3]}' if len(r['cfg']) > 3 else ''))
     ctx.count(f'type:{lf[0]},{lf[1]}')
     if len(ctx.samples) < 3 and len(prog) > 4:
         ctx.sample({'cfg': r['cfg'], 'lf': r['lf'], 'prog': prog[:8], 'opened': [rec.get('out') for rec in recs[:8]]})
@@ -180,7 +188,7 @@ def replay(ctx, data):
 
 def search(ctx):
     jobs = []
-    for cfg in L.CFGS_QUICK:
+    for cfg in L.CFGS_SMALLK + L.CFGS_QUICK:
         for lf in L.TYPES:
             for i in range(ctx.scale(60, 200)):
                 jobs.append((f'c02s:{cfg}:{lf}:{i}', cfg, lf, ctx.seed + 1, {'depth': 5, 'len': 10, 'ops': OPS, 'div': True, 'forced': False}))
